@@ -157,6 +157,17 @@ def sources(rng, tier):
     return srcs
 
 
+UNDEF_SITES = [
+    '.a{top:@zz}', '.a{top:1px + @zz}', '.a{top:f(@zz)}', '.a-@{zz}{top:0}', '.a{.b-@{zz}{top:0}}', '.a{content:"x@{zz}y"}', '.a{content:~"x@{zz}y"}',
+    '@media (min-width: @zz){.r{top:0}}', '@media screen and (min-width: @zz){.r{top:0}}', '.a{@media (min-width: @zz){top:0}}',
+    '@media (min-width: @zz + 1){.r{top:0}}', '.a{@media (min-width: @zz + 1){top:0}}', '@media (min-width: (@zz)){.r{top:0}}',
+    '@import "@{zz}.less";\n.a{left:0}', '@import "@{zz}.css";\n.a{left:0}',
+    '.m(@a){top:@a}\n.b{.m(@zz);}', '.m(@a: @zz){top:@a}\n.b{.m;}', '.m(@a) when (@a > @zz){top:@a}\n.b{.m(1);}', '@y: @zz;\n.a{top:@y}',
+    '.a{top:@@zz}', '@k: "zz";\n.a{top:@@k}', '@keyframes k{from{top:@zz}}', '.a{background:url("@{zz}")}', '.a{color:darken(@zz, 10%)}',
+    '.a{@media print{.b{top:@zz}}}', '.m(){top:@zz}\n.a{.m;}', '.a{&-@{zz}{top:0}}',
+]
+
+
 def run(tier):
     chk = C.Check(PROP, tier, 'proof')
     rng = random.Random(C.seed() * 236887691 + 15)
@@ -177,6 +188,11 @@ def run(tier):
             continue
         cases.append(('control', s))
         cases += corruptions(s, rng, per_class)
+    # an undefined variable at every kind of site that evaluates one (several of these are evaluated inside grammar actions, where a raised
+    # SyntaxError makes yacc drop input silently instead of reporting it)
+    for site in UNDEF_SITES:
+        cases.append(('undefined-variable', site))
+        cases.append(('undefined-variable', '.pre{left:0}\n' + site + '\n.post{right:0}'))
     res = C.compile_many([(s, dict(minify=True)) for _k, s in cases])
     toks = C.pool().map(_tok_job, [s for _k, s in cases], chunksize=8)
     lines, idx = [], []
@@ -289,6 +305,12 @@ def run(tier):
     chk.cov['disagreements_checked'] = len(disagreements)
     chk.cov['exhaustive'] = False
     chk.cov['distribution'] = stats
+    # the character-level front end (regular expressions regenerated from the lexer object, hand-modelled rule functions, token filter
+    # with its feedback, LALR driver on the regenerated tables) against the real lexer / parser on TEXT
+    import front
+    ntexts, fdis = front.run(chk, rng, tier, want=('filtered', 'parse'))
+    chk.cov['front_end_texts'] = ntexts
+    disagreements.extend(fdis)
     C.tie_verdict(chk, build, missing, disagreements, 'Lessm.LR.recognise on the regenerated tables vs ply.yacc driven by LessParser',
                   'all single corruptions of the generated programs were reported by the real code: no failing input')
     return chk.finish()
